@@ -1,6 +1,8 @@
 """C03 — tools outside the allowed capability set are never executed, on any path.
 
-World: a real Mitochondria(allowed_capabilities=A) and a real Nucleus whose provider is a
+Two plan families.
+
+Sequential family — a real Mitochondria(allowed_capabilities=A) and a real Nucleus whose provider is a
 scripted fake (or the repo's own MockProvider).  Tool bodies are fakes with a side-effect
 counter.  History of registrations (incl. re-registration under the same name with other
 requirements), metabolize() on the auto-detected and on every forced pathway,
@@ -10,14 +12,20 @@ Oracle: evaluated *inside the tool body* at the instant it runs — the body kno
 requirements it was declared with, the harness knows the ceiling; a body whose requirements
 are not inside the ceiling must never run.  The entry point is read off the call stack.
 Plus: a top-level request for a forbidden tool must come back as a failure.
+
+Threads family ("all interleavings of registration and calls") — one shared engine, 1-2 caller
+tasks going through the three entry points and one task that keeps re-registering the same names
+with allowed / forbidden requirements, under the seeded scheduler with a decision at every source
+line of mitochondria.py and nucleus.py.  Only the in-body oracle is used there: it needs no notion
+of "the registration current at request time", so it is sound under every interleaving.
 """
 from __future__ import annotations
 
 import sys
 
 from opsim import seams
-from opsim.core import SimBudget
-from opsim.sched import SeqTracer
+from opsim.core import SimBudget, HarnessError, derive
+from opsim.sched import SeqTracer, Sched
 from opsim.util import call, weighted
 
 from operon_ai.core.types import Capability
@@ -27,8 +35,8 @@ from operon_ai.providers import LLMResponse, ToolCall, MockProvider
 
 ID = "C03"
 LEVEL = "exploration"
-ENGINE = "seq"
-RUNS = {"quick": 80_000, "thorough": 4_000_000}
+ENGINE = "seq+threads"
+RUNS = {"quick": 60_000, "thorough": 4_000_000}
 RULE = ("seeded histories (1-3 constructor tools + 3-10 operations, <=14 thorough) over {register/re-register a tool "
         "(requirements declared as set/frozenset/list/tuple through required_capabilities or capabilities, via "
         "register_function / SimpleTool / a custom Tool class), metabolize(expression) on the auto-detected and each "
@@ -36,11 +44,16 @@ RULE = ("seeded histories (1-3 constructor tools + 3-10 operations, <=14 thoroug
         "transcribe_with_tools with a scripted adversarial provider or the repo's MockProvider, ceiling change, repair} "
         "on engines with allowed_capabilities in {None, empty, subsets of 6 capabilities + one foreign tag}; "
         "non-trivial = a history in which a forbidden tool was requested through at least one entry point; "
-        "distinct = distinct (configuration, constructor tools, operation list)")
+        "distinct = distinct (configuration, constructor tools, operation list).  Threads family (15 % of runs): one "
+        "shared engine with a non-None ceiling and 1-2 tool names, 1-2 caller tasks x 2-5 requests (execute_tool_call, "
+        "tool loop, metabolize) against one task x 2-5 re-registrations of the same names flipping between allowed and "
+        "forbidden requirements, x seeded schedules (serial, uniform, sticky, pct) with a decision at every source line "
+        "of mitochondria.py and nucleus.py; non-trivial = a context switch away from a task that was inside a request "
+        "or a registration; distinct = distinct (workload, recorded context-switch list)")
 COMPONENTS = {"real": ["operon_ai.organelles.mitochondria.Mitochondria", "operon_ai.organelles.mitochondria.SimpleTool",
                        "operon_ai.organelles.nucleus.Nucleus", "operon_ai.providers.mock.MockProvider (llm_mock operations)"],
               "stub": ["tool bodies (side-effect counters that judge themselves)", "LLM provider (scripted fake)",
-                       "datetime.now (virtual clock)"]}
+                       "datetime.now (virtual clock)", "the OS scheduler (seeded line-granularity scheduler, threads family)"]}
 ASSUMPTIONS = [
     "a tool declares its requirements through exactly one of the two attributes the engine reads, or through both with the same value",
     "when the ceiling attribute is changed after construction a tool counts as forbidden only if it is outside both the "
@@ -48,11 +61,15 @@ ASSUMPTIONS = [
     "a refusal must be reported as a failure only for a request whose top-level node is the tool call, on the auto or the tool pathway",
     "that allowed tools do run is a coverage probe, not an assertion",
     "tool names never collide with the engine's built-in math functions",
+    "threads family: pre-emption granularity is the source line; only the least-privilege clause is judged (whether a "
+    "request that raced with a re-registration had to be refused has no interleaving-independent answer); a call that "
+    "raises because the registry changed under it is not this property's business",
 ]
 EXPECT_PROBES = ("forbidden_requested_metabolize", "forbidden_requested_call", "forbidden_requested_llm",
                  "refused_metabolize", "allowed_tool_ran", "reregistered_flip_requested", "empty_ceiling_request",
                  "ros_latched", "unknown_tool_requested", "caps_attr_tool_requested", "list_declared_tool_requested",
-                 "partial_overlap_requested", "llm_forever")
+                 "partial_overlap_requested", "llm_forever", "threads_run", "registered_while_request_in_flight",
+                 "threads_forbidden_body_refused_after_swap")
 
 CAPS = ["read_fs", "write_fs", "net", "exec_code", "money", "email_send", "gpu"]   # "gpu": a foreign (string) tag
 _ENUM = {c.value: c for c in Capability}
@@ -109,7 +126,46 @@ def _reg(rng, name, allowed, want_forbidden):
             weighted(rng, [(4, "set"), (2, "frozenset"), (3, "list"), (1.5, "tuple")]), via, rng.random() < 0.25]
 
 
+def _gen_threads(rng, tier):
+    allowed = weighted(rng, [(3.5, []), (3.5, [rng.choice(CAPS)]), (3, sorted(rng.sample(CAPS, rng.randint(2, 3))))])
+    names = NAMES[: weighted(rng, [(3, 1), (2, 2)])]
+    simple = lambda n, fb: ["reg", n, _req_for(rng, allowed, fb), "required_capabilities", "set",   # noqa: E731
+                            rng.choice(["function", "simple", "custom"]), rng.random() < 0.08]
+    pre = [simple(n, rng.random() < 0.2)[1:] for n in names]     # mostly allowed first: the gate must pass to be raced
+    registrar = []
+    fb = rng.random() < 0.85
+    for _ in range(rng.randint(2, 5)):
+        registrar.append(simple(rng.choice(names), fb))
+        fb = not fb if rng.random() < 0.85 else fb
+
+    def caller():
+        ops = []
+        for _ in range(rng.randint(2, 5)):
+            o = weighted(rng, [(4.5, "call"), (3, "llm"), (2.5, "met")])
+            n = rng.choice(names)
+            if o == "call":
+                ops.append(["call", n, rng.choice(["none", "kw"])])
+            elif o == "llm":
+                rounds = [[rng.choice(names) for _ in range(weighted(rng, [(3, 1), (2, 2)]))]
+                          for _ in range(rng.randint(1, 2))]
+                ops.append(["llm", rounds, "final", rng.choice([1, 2, 3]), True])
+            else:
+                ops.append(["met", rng.choice(["bare", "args", "kw"]), n, n, rng.choice([None, "tool"])])
+        return ops
+    tasks = [caller(), registrar]
+    if rng.random() < 0.25:
+        tasks.append(caller())
+    strat = dict(weighted(rng, [(0.5, {"kind": "serial"}), (3, {"kind": "uniform"}), (2, {"kind": "sticky", "p": 0.7}),
+                                (2, {"kind": "sticky", "p": 0.9}), (1, {"kind": "sticky", "p": 0.97}),
+                                (1.5, {"kind": "pct", "d": 1, "est": 120}), (1.5, {"kind": "pct", "d": 2, "est": 200}),
+                                (1.5, {"kind": "pct", "d": 3, "est": 300})]))
+    return {"config": {"allowed": allowed, "max_ros": 1.0, "family": "threads", "strategy": strat},
+            "pre": pre, "tasks": tasks}
+
+
 def gen(rng, tier, i):
+    if rng.random() < 0.15:
+        return _gen_threads(rng, tier)
     kind = weighted(rng, [(1.0, "none"), (2.5, "empty"), (3.5, "one"), (3, "few"), (0.7, "most")])
     allowed = {"none": None, "empty": [], "one": [rng.choice(CAPS)],
                "few": sorted(rng.sample(CAPS, rng.randint(2, 3))),
@@ -189,6 +245,28 @@ def gen(rng, tier, i):
     return {"config": cfg, "pre": pre, "ops": ops}
 
 
+def _op_lists(plan):
+    """(path, list) of every operation list in the plan: ops (sequential) or tasks[i] (threads)."""
+    if "ops" in plan:
+        yield ("ops",), plan["ops"]
+    for ti, t in enumerate(plan.get("tasks") or []):
+        yield ("tasks", ti), t
+
+
+def _with(plan, path, j, new):
+    if path == ("pre",):
+        lst = [list(x) for x in plan["pre"]]
+        lst[j] = new
+        return {**plan, "pre": lst}
+    if path == ("ops",):
+        lst = [list(x) for x in plan["ops"]]
+        lst[j] = new
+        return {**plan, "ops": lst}
+    tasks = [[list(x) for x in t] for t in plan["tasks"]]
+    tasks[path[1]][j] = new
+    return {**plan, "tasks": tasks}
+
+
 def simplify(plan):
     cfg = plan["config"]
     if cfg["max_ros"] != 1.0:
@@ -196,56 +274,56 @@ def simplify(plan):
     if cfg["allowed"]:
         for j in range(len(cfg["allowed"])):
             yield {**plan, "config": {**cfg, "allowed": cfg["allowed"][:j] + cfg["allowed"][j + 1:]}}
+    if "tasks" in plan and len(plan["tasks"]) > 2 and not plan["tasks"][-1]:
+        yield {**plan, "tasks": plan["tasks"][:-1]}
 
     def regs():
         for j, r in enumerate(plan["pre"]):
-            yield ("pre", j, ["reg"] + list(r))
-        for j, o in enumerate(plan["ops"]):
-            if o[0] == "reg":
-                yield ("ops", j, list(o))
+            yield ("pre",), j, ["reg"] + list(r)
+        for path, lst in _op_lists(plan):
+            for j, o in enumerate(lst):
+                if o[0] == "reg":
+                    yield path, j, list(o)
 
-    def put(where, j, r):
-        new = [list(x) for x in plan[where]]
-        new[j] = r[1:] if where == "pre" else r
-        return {**plan, where: new}
+    def put(path, j, r):
+        return _with(plan, path, j, r[1:] if path == ("pre",) else r)
 
-    for where, j, r in regs():
+    for path, j, r in regs():
         if len(r[2]) > 1:
             for c in range(len(r[2])):
-                yield put(where, j, r[:2] + [r[2][:c] + r[2][c + 1:]] + r[3:])
+                yield put(path, j, r[:2] + [r[2][:c] + r[2][c + 1:]] + r[3:])
         if r[6]:
-            yield put(where, j, r[:6] + [False])
+            yield put(path, j, r[:6] + [False])
         if r[5] != "function":
-            yield put(where, j, r[:3] + ["required_capabilities", r[4], "function", r[6]])
+            yield put(path, j, r[:3] + ["required_capabilities", r[4], "function", r[6]])
         if r[4] != "set":
-            yield put(where, j, r[:4] + ["set"] + r[5:])
-    for j, o in enumerate(plan["ops"]):
-        cands = []
-        if o[0] == "met":
-            if o[1] != "bare":
-                cands.append(["met", "bare", o[2], o[3], o[4]])
-            if o[4] is not None:
-                cands.append(["met", o[1], o[2], o[3], None])
-        elif o[0] == "call" and o[2] != "none":
-            cands.append(["call", o[1], "none"])
-        elif o[0] == "llm":
-            for c in range(len(o[1])):                       # drop a round
-                cands.append(["llm", o[1][:c] + o[1][c + 1:], o[2], o[3], o[4]])
-            for c, r in enumerate(o[1]):                     # drop a call inside a round
-                if isinstance(r, list) and len(r) > 1:
-                    for d in range(len(r)):
-                        cands.append(["llm", o[1][:c] + [r[:d] + r[d + 1:]] + o[1][c + 1:], o[2], o[3], o[4]])
-            if o[2] != "final":
-                cands.append(["llm", o[1], "final", o[3], o[4]])
-            for small in (1, 2, 3):
-                if small < o[3]:
-                    cands.append(["llm", o[1], o[2], small, o[4]])
-            if not o[4]:
-                cands.append(["llm", o[1], o[2], o[3], True])
-        for new in cands:
-            ops = [list(x) for x in plan["ops"]]
-            ops[j] = new
-            yield {**plan, "ops": ops}
+            yield put(path, j, r[:4] + ["set"] + r[5:])
+    for path, lst in _op_lists(plan):
+        for j, o in enumerate(lst):
+            cands = []
+            if o[0] == "met":
+                if o[1] != "bare":
+                    cands.append(["met", "bare", o[2], o[3], o[4]])
+                if o[4] is not None:
+                    cands.append(["met", o[1], o[2], o[3], None])
+            elif o[0] == "call" and o[2] != "none":
+                cands.append(["call", o[1], "none"])
+            elif o[0] == "llm":
+                for c in range(len(o[1])):                       # drop a round
+                    cands.append(["llm", o[1][:c] + o[1][c + 1:], o[2], o[3], o[4]])
+                for c, r in enumerate(o[1]):                     # drop a call inside a round
+                    if isinstance(r, list) and len(r) > 1:
+                        for d in range(len(r)):
+                            cands.append(["llm", o[1][:c] + [r[:d] + r[d + 1:]] + o[1][c + 1:], o[2], o[3], o[4]])
+                if o[2] != "final":
+                    cands.append(["llm", o[1], "final", o[3], o[4]])
+                for small in (1, 2, 3):
+                    if small < o[3]:
+                        cands.append(["llm", o[1], o[2], small, o[4]])
+                if not o[4]:
+                    cands.append(["llm", o[1], o[2], o[3], True])
+            for new in cands:
+                yield _with(plan, path, j, new)
 
 
 # --------------------------------------------------------------------------- fakes
@@ -333,38 +411,38 @@ def _entry_on_stack():
     return "other/" + (names[0] if names else "outside_engine")
 
 
-# --------------------------------------------------------------------------- run
-def run(plan, k):
-    global SCOPE
-    if SCOPE is None:
-        SCOPE = frozenset([seams.src("operon_ai/organelles/mitochondria.py"),
-                           seams.src("operon_ai/organelles/nucleus.py")])
-    cfg = plan["config"]
-    k.key = [cfg, plan["pre"], plan["ops"]]
+# --------------------------------------------------------------------------- the shared world
+class _World:
+    """Harness-side truth: the ceiling(s), what each registration declared, how often each body ran."""
 
-    # harness-side truth
-    a_ctor = None if cfg["allowed"] is None else frozenset(_dec(cfg["allowed"]))
-    world = {"a_now": a_ctor, "changed": False}
-    tools = {}          # name -> {"req": frozenset, "id": n, "attr":, "cont":, "flipped": bool}
-    ran = {}            # registration id -> number of times the body ran
-    reg_count = [0]
-    requested_forbidden = [0]
+    def __init__(self, k, cfg):
+        self.k = k
+        self.cfg = cfg
+        self.a_ctor = None if cfg["allowed"] is None else frozenset(_dec(cfg["allowed"]))
+        self.a_now = self.a_ctor
+        self.changed = False
+        self.tools = {}         # name -> {"req", "id", "attr", "cont", "flipped"}  (latest registration built)
+        self.ran = {}           # registration id -> number of times the body ran
+        self.nreg = 0
+        self.requested_forbidden = 0
 
-    def forbidden(req):
-        for a in (a_ctor, world["a_now"]):
+    def forbidden(self, req):
+        for a in (self.a_ctor, self.a_now):
             if a is None or req <= a:
                 return False
         return True
 
-    def make_body(name, rid, req, raises):
+    def make_body(self, name, rid, req, raises):
+        k, ran = self.k, self.ran
+
         def body(*a, **kw):
             site = _entry_on_stack()
             ran[rid] = ran.get(rid, 0) + 1
             k.ev("tool_body", [name, rid, site])
-            if forbidden(req):
+            if self.forbidden(req):
                 k.violation("least_privilege", "forbidden_tool_ran", site,
-                            f"tool {name!r} requires {_show(req)}, ceiling {_show(world['a_now'])}"
-                            + (f" (constructed with {_show(a_ctor)})" if world["changed"] else ""))
+                            f"tool {name!r} requires {_show(req)}, ceiling {_show(self.a_now)}"
+                            + (f" (constructed with {_show(self.a_ctor)})" if self.changed else ""))
             else:
                 k.probe("allowed_tool_ran")
             if raises:
@@ -373,20 +451,26 @@ def run(plan, k):
             return f"out:{name}:{ran[rid]}"
         return body
 
-    def build(spec):
+    def build(self, spec):
         name, req_names, attr, cont, via, raises = spec
-        reg_count[0] += 1
-        rid = reg_count[0]
+        self.nreg += 1
+        rid = self.nreg
         req = frozenset(_dec(req_names))
         caps = {"set": set, "frozenset": frozenset, "list": list, "tuple": tuple}[cont](_dec(req_names))
-        body = make_body(name, rid, req, raises)
-        old = tools.get(name)
-        tools[name] = {"req": req, "id": rid, "attr": attr, "cont": cont,
-                       "flipped": old is not None and forbidden(old["req"]) != forbidden(req)}
+        body = self.make_body(name, rid, req, raises)
+        old = self.tools.get(name)
+        self.tools[name] = {"req": req, "id": rid, "attr": attr, "cont": cont,
+                            "flipped": old is not None and self.forbidden(old["req"]) != self.forbidden(req)}
         return name, body, caps, attr, via
 
-    def register(m, spec):
-        name, body, caps, attr, via = build(spec)
+    def tool_object(self, spec):
+        name, body, caps, attr, via = self.build(spec)
+        if via == "custom":
+            return _CustomTool(name, body, attr, caps)
+        return SimpleTool(name=name, description="sim tool " + name, func=body, required_capabilities=caps)
+
+    def register(self, m, spec, tr=None):
+        name, body, caps, attr, via = self.build(spec)
         if via == "function":
             return call(m.register_function, name, body, "sim tool " + name, caps or None, tracer=tr)
         if via == "simple":
@@ -394,47 +478,62 @@ def run(plan, k):
                                                   required_capabilities=caps), tracer=tr)
         return call(m.engulf_tool, _CustomTool(name, body, attr, caps), tracer=tr)
 
-    def total_ran(name):
-        t = tools.get(name)
-        return ran.get(t["id"], 0) if t else 0
+    def total_ran(self, name):
+        t = self.tools.get(name)
+        return self.ran.get(t["id"], 0) if t else 0
 
-    def note_request(name, entry):
-        """Classify one request; returns True if the tool is registered and forbidden right now."""
-        t = tools.get(name)
+    def note_request(self, name, entry):
+        """Classify one request; True if the (latest) registration of that name is forbidden right now."""
+        k = self.k
+        t = self.tools.get(name)
         if t is None:
             k.probe("unknown_tool_requested")
             return False
-        if not forbidden(t["req"]):
+        if not self.forbidden(t["req"]):
             return False
-        requested_forbidden[0] += 1
+        self.requested_forbidden += 1
         k.probe("forbidden_requested_" + entry)
         if t["flipped"]:
             k.probe("reregistered_flip_requested")
-        if world["a_now"] is not None and len(world["a_now"]) == 0:
+        if self.a_now is not None and len(self.a_now) == 0:
             k.probe("empty_ceiling_request")
         if t["attr"] == "capabilities":
             k.probe("caps_attr_tool_requested")
         if t["cont"] in ("list", "tuple"):
             k.probe("list_declared_tool_requested")
-        if world["a_now"] is not None and t["req"] & world["a_now"]:
+        if self.a_now is not None and t["req"] & self.a_now:
             k.probe("partial_overlap_requested")
         if entry == "llm":
             k.fault("collab_adversarial_value")
         return True
 
+    def engine(self, pre, tr=None):
+        ctor_tools = [self.tool_object(spec) for spec in pre]
+        return call(Mitochondria, max_ros=self.cfg["max_ros"], tools=ctor_tools,
+                    allowed_capabilities=None if self.cfg["allowed"] is None else set(_dec(self.cfg["allowed"])),
+                    silent=True, tracer=tr)
+
+
+def run(plan, k):
+    global SCOPE
+    if SCOPE is None:
+        SCOPE = frozenset([seams.src("operon_ai/organelles/mitochondria.py"),
+                           seams.src("operon_ai/organelles/nucleus.py")])
+    if "tasks" in plan:
+        return _run_threads(plan, k)
+    return _run_seq(plan, k)
+
+
+# --------------------------------------------------------------------------- sequential family
+def _run_seq(plan, k):
+    cfg = plan["config"]
+    k.key = [cfg, plan["pre"], plan["ops"]]
+    w = _World(k, cfg)
+    forbidden, tools, total_ran, note_request = w.forbidden, w.tools, w.total_ran, w.note_request
+
     with SeqTracer(k, sorted(SCOPE), 50_000) as tr:
         # constructor tools are built first (their bodies judge themselves like all others)
-        ctor_tools = []
-        for spec in plan["pre"]:
-            name, body, caps, attr, via = build(spec)
-            if via == "custom":
-                ctor_tools.append(_CustomTool(name, body, attr, caps))
-            else:
-                ctor_tools.append(SimpleTool(name=name, description="sim tool " + name, func=body,
-                                             required_capabilities=caps))
-        out = call(Mitochondria, max_ros=cfg["max_ros"], tools=ctor_tools,
-                   allowed_capabilities=None if cfg["allowed"] is None else set(_dec(cfg["allowed"])),
-                   silent=True, tracer=tr)
+        out = w.engine(plan["pre"], tr)
         if not out.ok:
             k.ev("ctor", out.brief())
             return
@@ -443,19 +542,19 @@ def run(plan, k):
         for op in plan["ops"]:
             kind = op[0]
             if kind == "reg":
-                out = register(m, op[1:])
+                out = w.register(m, op[1:], tr)
                 k.ev("reg", [op[1], out.brief()[0]])
                 continue
             if kind == "allow":
                 new = None if op[1] is None else set(_dec(op[1]))
-                if (op[2] == "inplace" and new is not None and world["a_now"] is not None
+                if (op[2] == "inplace" and new is not None and w.a_now is not None
                         and isinstance(m.allowed_capabilities, set)):
                     m.allowed_capabilities.intersection_update(new)      # narrowing in place
-                    world["a_now"] = world["a_now"] & frozenset(new)
+                    w.a_now = w.a_now & frozenset(new)
                 else:
                     m.allowed_capabilities = new
-                    world["a_now"] = None if new is None else frozenset(new)
-                world["changed"] = True
+                    w.a_now = None if new is None else frozenset(new)
+                w.changed = True
                 k.probe("ceiling_changed")
                 k.ev("allow", [op[1], op[2]])
                 continue
@@ -544,5 +643,78 @@ def run(plan, k):
                 continue
             raise ValueError(kind)
 
-    if requested_forbidden[0] > 0:
+    if w.requested_forbidden > 0:
         k.nontrivial = True
+
+
+# --------------------------------------------------------------------------- threads family
+def _run_threads(plan, k):
+    cfg = plan["config"]
+    sched = Sched(k, cfg.get("strategy"), switches=plan.get("switches"),
+                  rng=derive(plan.get("_seedpath", "replay"), "sched"), scope=sorted(SCOPE), max_steps=40_000)
+    k.probe("threads_run")
+    w = _World(k, cfg)
+    with SeqTracer(k, sorted(SCOPE), 50_000) as tr:          # the engine is built before the scheduler starts
+        out = w.engine(plan["pre"], tr)
+    if not out.ok:
+        k.ev("ctor", out.brief())
+        return
+    m = out.value
+    state = {"swaps_in_flight": 0}
+
+    def do(op):
+        kind = op[0]
+        if kind == "reg":
+            return w.register(m, op[1:])
+        if kind == "call":
+            return call(m.execute_tool_call, ToolCall(id="direct", name=op[1], arguments={"x": 1} if op[2] == "kw" else {}))
+        if kind == "met":
+            _, form, name, other, pw = op
+            return call(m.metabolize, FORMS[form][0].format(n=name, N=name.upper(), o=other), PATHWAYS[pw])
+        if kind == "llm":
+            _, rounds, tail, max_iter, auto = op
+            nuc = Nucleus(provider=_Provider(k, rounds, tail, max_iter))
+            return call(nuc.transcribe_with_tools, "use the tools", m, None, max_iter, auto)
+        raise HarnessError(f"operation {kind} is not part of the threads family")
+
+    def body(ti, ops):
+        def f():
+            me = sched.cur
+            for oi, op in enumerate(ops):
+                k.ev("inv", [ti, oi, op[0]])
+                busy_before = [t.op for t in sched.tasks if t is not me and t.op not in (None, "reg")]
+                me.op = op[0]
+                out = do(op)
+                me.op = None
+                k.ev("ret", [ti, oi, out.brief()[0]])
+                if out.kind == "raised":
+                    k.probe("threads_call_raised")
+                elif out.kind not in ("ok", "fake_budget"):
+                    raise HarnessError(f"unexpected outcome {out.kind} inside a scheduled task")
+                if op[0] == "reg":
+                    busy = [t.op for t in sched.tasks if t is not me and t.op not in (None, "reg")]
+                    if busy or busy_before:
+                        k.probe("registered_while_request_in_flight")
+                        if w.forbidden(w.tools[op[1]]["req"]):
+                            state["swaps_in_flight"] += 1
+        return f
+
+    for ti, ops in enumerate(plan["tasks"]):
+        sched.spawn(body(ti, ops), name=f"t{ti}")
+    sched.run()
+    plan["switches"] = sched.switches
+    k.steps += sched.steps
+    k.key = ["threads", {a: b for a, b in cfg.items() if a != "strategy"}, plan["pre"], plan["tasks"]]
+    k.nontrivial = sched.preempt_in_op > 0
+    for t in sched.tasks:
+        if isinstance(t.exc, HarnessError):
+            raise t.exc
+        if t.exc is not None:
+            raise HarnessError(f"task {t.name} died: {t.exc!r}")
+    v = sched.verdict
+    k.ev("threads_end", [v[0] if v else None, sched.ctx_switches])
+    if v and v[0] in ("deadlock", "step_budget"):
+        k.probe("threads_" + v[0])          # not this property's clause (the engine has no locks; loops are C18's)
+        return
+    if state["swaps_in_flight"] and not k.violations:
+        k.probe("threads_forbidden_body_refused_after_swap")
